@@ -51,8 +51,6 @@ def handle (args : List String) : String :=
   | [] => "ERR:empty"
   | fam :: rest =>
     let g := kv rest
-    -- `fx=F1,F3,…`: the repairs the harness found present in /repo on this run
-    let fx (k : String) : Bool := ((g "fx").splitOn ",").contains k
     match fam with
     | "rms" =>
       rms { xdt := pNat (g "xdt"), sdt := pNat (g "sdt"), castIn := pBool (g "cast_in"), cdt := pNat (g "cdt"),
@@ -76,13 +74,12 @@ def handle (args : List String) : String :=
              stash := pOptInt (g "stash"), eps := pOptFloat (g "eps"), axis := pOptInt (g "axis") }
     | "gelu" =>
       gelu (g "form") ((pInts (g "sw")).map Int.toNat) (((g "consts").splitOn ",").map pFloat) (pInt (g "rank1"))
-    | "biasgelu" => biasGelu (fx "F1") (g "approx" == "qtanh") (pShapeD (g "a")) (pShapeD (g "b"))
+    | "biasgelu" => biasGelu (g "approx" == "qtanh") (pShapeD (g "a")) (pShapeD (g "b"))
     | "softmax" => softmax (pNat (g "dt")) (pNat (g "up")) (pNat (g "down")) (pOptInt (g "axis"))
     | "fmm" =>
       fmm { kind := g "kind", rank := pNat (g "rank"), inner := pFAttrs (g "inner"),
             perm := pOptInts (g "perm"), cstConst := pBool (g "cst_const"),
-            cstShape := (pInts (g "cst_shape")).map Int.toNat, cst := pFloat (g "cst"),
-            fix3 := fx "F3", fix4 := fx "F4", fix5 := fx "F5", fix9 := fx "F9" }
+            cstShape := (pInts (g "cst_shape")).map Int.toNat, cst := pFloat (g "cst") }
     | "rope" =>
       rope { x := pShapeD (g "x"), xe := pShapeD (g "xe"), sl := pInts (g "sl"), partialRot := pBool (g "partial"),
              pEnd1 := pInt (g "p_end1"), pStart2 := pInt (g "p_start2"), posRank := pNat (g "pos_rank"), inv0 := pNat (g "inv0"),
